@@ -54,7 +54,7 @@ type Violation struct {
 	Msg     string
 	Prefix   []decision
 	Harness  string
-	Schedule []int
+	Schedule []SchedEv
 }
 
 type replayVal struct {
@@ -93,6 +93,7 @@ type Path struct {
 	notes      []string
 	timeNow    *term.T
 	clockN     int
+	schedLog   []SchedEv
 	timerFires int
 	hashN      int
 }
@@ -543,7 +544,11 @@ func (in *Interp) recordViolation(kind, label, msg string, diag map[string]any, 
 	if len(p.notes) > 0 {
 		cd["notes"] = strings.Join(p.notes, ",")
 	}
-	p.violations = append(p.violations, Violation{Label: label, Diag: cd, Nondet: vals, Kind: kind, Msg: msg, Prefix: tr})
+	var sl []SchedEv
+	if len(p.schedLog) > 0 {
+		sl = append(sl, p.schedLog...)
+	}
+	p.violations = append(p.violations, Violation{Label: label, Diag: cd, Nondet: vals, Kind: kind, Msg: msg, Prefix: tr, Schedule: sl})
 }
 
 func sortedKeys(m map[string]bool) []string {
